@@ -217,7 +217,10 @@ theorem attribution (w : Wg σ Pkt Net) (hs : w.Sound) (ops : List (Op Pkt)) (fr
     · cases hv : w.verify pkt with
       | cookie c => simp [handleIncoming, hv] at hres
       | err e => simp [handleIncoming, hv] at hres
-      | ok => simp [hnone, hc, ha, AMap.get?_insert]
+      | ok =>
+        simp only [handleIncoming, hv, hnone, hc, ha] at hres
+        obtain ⟨h1, _⟩ := acceptNew_forwarded hres
+        simp [hnone, hc, ha, acceptNew, h1, AMap.get?_insert]
 
 /-- Outbound: the session data returned with an accepted outbound payload is the one of the peer static identity
 of the tunnel at that address, evaluated at that instant (any `Wg`, any state). -/
@@ -243,6 +246,41 @@ theorem attribution_generic {SD : Type} (w : Wg σ Pkt Net) (authz : Id → Opti
   · intro t' ht'; rw [hnone] at ht'; cases ht'
 
 end
+
+/-- The tunnel table has one entry per remote address, after every history. -/
+theorem one_tunnel_per_address (w : Wg σ Pkt Net) (ops : List (Op Pkt)) :
+    (run w {} ops).srv.tunnels.keys.Nodup :=
+  run_tunnels_nodup (by simp [AMap.keys]) ops
+
+/-- As long as the entry for an address exists it keeps its peer static identity: no operation – in particular no
+handshake of a second client (another identity, authorised or not) arriving from the same address – re-binds an
+existing tunnel to another identity. -/
+theorem peer_static_stable (w : Wg σ Pkt Net) (ops : List (Op Pkt)) (op : Op Pkt) (a : Addr) (t t' : Tunnel σ)
+    (h : (run w {} ops).srv.tunnels.get? a = some t)
+    (h' : (step w (run w {} ops) op).1.srv.tunnels.get? a = some t') : t'.peerStatic = t.peerStatic :=
+  step_peer_stable (one_tunnel_per_address w ops) op a t t' h h'
+
+/-- **Every tunnel entry is authenticated.**  After every history, the tunnel entry at address `a` (which attributes
+all traffic at `a`, inbound and outbound, to `t.peerStatic`) was created by a datagram that arrived from `a` earlier
+in the history and was cryptographically authenticated by `t.peerStatic` (`hs.accept`).  False before fix 9197560:
+`parse_handshake_anon` only decrypts the *claimed* static key and the entry was inserted even when the new tunnel
+rejected the handshake (corpus/C09/030-forged-handshake.case). -/
+theorem tunnel_authenticated (w : Wg σ Pkt Net) (hs : w.Sound) (ops : List (Op Pkt)) (a : Addr) (t : Tunnel σ)
+    (h : (run w {} ops).srv.tunnels.get? a = some t) :
+    ∃ pre pkt post, ops = pre ++ .incoming a pkt :: post ∧ w.signer pkt = some t.peerStatic := by
+  rcases run_tunnel_origin hs ops (fun _ _ => False) {} (by simp [AMap.keys])
+    (fun a t h => by cases h) a t h with h | h
+  · exact h.elim
+  · exact h
+
+/-- Hence an accepted outbound payload is attributed to an identity that authenticated itself from that address. -/
+theorem attribution_outgoing_authenticated (w : Wg σ Pkt Net) (hs : w.Sound) (ops : List (Op Pkt)) (to : Addr)
+    (payload : Payload) (n : Option Net) (sd : Unit) (peer : Option Id)
+    (h : (step w (run w {} ops) (.outgoing to payload)).2 = .outgoing (some (n, sd)) peer) :
+    ∃ id, peer = some id ∧ (run w {} ops).reg.isAuthorized (run w {} ops).now id = some sd ∧
+      ∃ pre pkt post, ops = pre ++ .incoming to pkt :: post ∧ w.signer pkt = some id := by
+  obtain ⟨t, ht, hp, ha⟩ := attribution_outgoing w _ to payload n sd peer h
+  exact ⟨t.peerStatic, hp, ha, tunnel_authenticated w hs ops to t ht⟩
 
 /-- The WireGuard hypothesis is satisfiable: the executable `Tunn` stand-in that the correspondence driver runs
 against the real gotatun `Tunn` (timestamp replay check, session ring, replay filter, queue) satisfies it, so
@@ -285,6 +323,14 @@ def toySound : toy.Sound where
     · split at hr
       · rename_i he; simp only [toy]; rw [he, h]
       · cases hr
+  accept id a p h := by
+    simp only [toy] at h ⊢
+    by_cases hp : p.2 = id
+    · rw [hp]
+    · exfalso
+      by_cases h1 : p.1 = true
+      · exact h (.tunn 1) (by simp [h1, hp])
+      · exact h (.tunn 2) (by simp [h1, hp])
 
 /-- register id 5 under key 1 for 10 ticks, handshake from address 3, data from address 3: forwarded -/
 def hist : List (Op (Bool × Id)) := [.register 1 5 10, .incoming 3 (true, 5), .incoming 3 (false, 5)]
@@ -308,5 +354,17 @@ example : ((run toy {} (hist ++ [.register 2 6 10, .incoming 3 (true, 6)])).srv.
 example : (step toy (run toy {} hist) (.incoming 3 (false, 5))).2
     = .incoming [] (.forwarded [7] ()) (some 5) := by decide
 end Example
+
+namespace ForgedExample
+/-- forged handshake initiation (claims identity 0, produced by nobody who holds that key) from address 0 while
+identity 0 is registered: refused, and – since fix 9197560 – no tunnel entry, so a following outbound payload for
+address 0 is not accepted -/
+def hist : List (Op GoWg.Pkt) := [.register 0 0 8, .incoming 0 (.init none 0 1 1)]
+example : (run GoWg.wg {} hist).srv.tunnels = [] := by decide
+example : (step GoWg.wg (run GoWg.wg {} hist) (.outgoing 0 [1])).2.flow = none := by decide
+-- the genuine one creates the entry
+example : ((run GoWg.wg {} [.register 0 0 8, .incoming 0 (.init (some 0) 0 1 1)]).srv.tunnels.get? 0).map
+    (·.peerStatic) = some 0 := by decide
+end ForgedExample
 
 end ScionVerif.SnapTun
